@@ -134,7 +134,7 @@ template <class T> static void run_query(Choice &c, Ctx &cx)
     auto pat = gen_pattern(c, n, n, PAT_NONSING, family);
     GMat G = gen_values(c, n, n, pat, cplx, single, family);
     Opts o = gen_opts(c, n, single, true, true);
-    bool ilu = c.chance(100); IluOpts io; if (ilu) io = gen_ilu_opts(c);
+    bool ilu = c.chance(100); IluOpts io; if (ilu) { io = gen_ilu_opts(c); route_ilu(io, cx); }
     int nrhs = (int)c.below(3);
     Expert<T> e; e.init(n, nrhs, n, n); e.ilu = ilu;
     e.S = to_comp<T>(G, o.nr, o.shuffle_rows ? &c : nullptr);
